@@ -81,14 +81,14 @@ theorem par_ids (p : List Instr) (hp : WellLocked p) (c : Nat) (reqs : List Nat)
     (sched : List (Nat × Nat)) (nums : List (List Nat)) (c' : Nat)
     (h : runPar p c reqs sched = .ok (nums, c')) :
     nums.length = reqs.length ∧
-    (∀ t n, reqs[t]? = some n → ∃ l, nums[t]? = some l ∧ l.length = n ∧ l.Pairwise (· < ·)) ∧
-    (∀ t u a b, t ≠ u → nums[t]? = some a → nums[u]? = some b → ∀ v, v ∈ a → v ∉ b) ∧
-    (∀ v, (∃ l, l ∈ nums ∧ v ∈ l) ↔ (c ≤ v ∧ v < c')) ∧
+    (∀ (t n : Nat), reqs[t]? = some n → ∃ l : List Nat, nums[t]? = some l ∧ l.length = n ∧ l.Pairwise (· < ·)) ∧
+    (∀ (t u : Nat) (a b : List Nat), t ≠ u → nums[t]? = some a → nums[u]? = some b → ∀ v, v ∈ a → v ∉ b) ∧
+    (∀ v : Nat, (∃ l, l ∈ nums ∧ v ∈ l) ↔ (c ≤ v ∧ v < c')) ∧
     c' = c + reqs.sum := by
   obtain ⟨x, hx⟩ := hp
   unfold runPar at h
   simp only [runRle_eq_runSched] at h
-  generalize hrem : (fun i => match reqs[i]? with | some n => n | none => 0) = rem at h
+  generalize hrem : reqOf reqs = rem at h
   generalize hsch : expand (sched ++ drainSched reqs.length) = sch at h
   have I : Inv p x c rem (runSched p (initSt c rem) sch) := inv_run hx (inv_init p x c rem hx) sch
   generalize runSched p (initSt c rem) sch = s at h I
@@ -99,11 +99,7 @@ theorem par_ids (p : List Instr) (hp : WellLocked p) (c : Nat) (reqs : List Nat)
   obtain ⟨hn, hc⟩ := h
   subst hc
   have hremlt : ∀ t, rem t ≠ 0 → t < reqs.length := by
-    intro t ht
-    apply Classical.byContradiction
-    intro hge
-    have : reqs[t]? = none := List.getElem?_eq_none (by omega)
-    rw [← hrem] at ht; simp [this] at ht
+    intro t ht; rw [← hrem] at ht; exact reqOf_lt ht
   have hrem0 : ∀ t, (s.th t).remaining = 0 := by
     intro t
     by_cases ht : t < reqs.length
@@ -125,8 +121,8 @@ theorem par_ids (p : List Instr) (hp : WellLocked p) (c : Nat) (reqs : List Nat)
       rw [List.getElem?_eq_none (by omega)] at htn; cases htn
     refine ⟨_, hnum t ht, ?_, ?_⟩
     · have := I.cnt t
-      rw [hrem0 t, ← hrem] at this
-      simp [htn] at this; simpa using this
+      rw [hrem0 t, ← hrem, reqOf_some htn] at this
+      simpa using this
     · rw [← htaken]; exact I.taken_increasing t
   · intro t u a b htu ha hb v hva hvb
     have ht : t < reqs.length := by
@@ -162,7 +158,7 @@ theorem par_ids (p : List Instr) (hp : WellLocked p) (c : Nat) (reqs : List Nat)
     have hsum := sum_owner_counts_all s.log reqs.length hown
     have hmap : (List.range reqs.length).map (fun t => (s.log.filter (fun e => e.1 == t)).length)
         = reqs := by
-      conv => rhs; rw [← map_getElem?_range reqs]
+      conv => rhs; rw [← map_reqOf_range reqs]
       apply List.map_congr_left
       intro t ht
       have h1 := congrArg List.length (I.own t)
@@ -233,7 +229,7 @@ theorem derived_shares (g : Cfg) (w w' : World) (c c' : Nat) (hs : Headers)
 
 /-! Non-vacuity: the generated program and format evaluated by the kernel. -/
 example : genSeq Gen.C16.reqIdProgram 41 = .ok (41, 42) := by decide +kernel
-example : runPar Gen.C16.reqIdProgram 7 [2, 1] [(0, 6), (1, 40), (0, 3)] = .ok ([[7, 9], [8]], 10) := by
+example : runPar Gen.C16.reqIdProgram 7 [2, 1] [(0, 6), (1, 40), (0, 31), (1, 37)] = .ok ([[7, 9], [8]], 10) := by
   decide +kernel
 example : render "ab12".toList Gen.C16.idFormat 123456 = "ab123456-0000-0000-0000-000000123456".toList := by
   decide +kernel
